@@ -10,6 +10,21 @@ BASELINE_OFF = ("cd /repo && env -u CNES_PANDORA_VERIF /venv/bin/python -m pytes
 
 # id -> (technique, level text, level note, design ref)
 CLAIMED = {
+    "C18": (
+        "Hypothesis stateful machine over interleaved check/run histories (hash invariant) plus sub-process differential over threading environments",
+        "Exploration: (history) a RuleBasedStateMachine owns up to three machine objects over six pipelines that cover "
+        "every prange kernel and every step class (incl. multiscale) and two same-shape input pairs; after each "
+        "generated interleaving of new-machine / check / run operations every observation of a (pipeline, inputs) pair "
+        "must hash (SHA-256 over all product variables, coordinates, attributes) to the same value and the caller's "
+        "datasets must be deep-equal before and after each run; (environments) the same generated cases run in fresh "
+        "sub-processes under NUMBA_NUM_THREADS 1..16 x {omp, workqueue} x chunk sizes {0,1,7} x parallel on/off, each "
+        "repeated; products must be bit-identical across environments (with parallel off: disparity map and "
+        "pre-validation flags).",
+        "Trusted: SHA-256 of the product arrays. Limitation (DESIGN.md §8): the harness does not own numba's scheduler; "
+        "a race confined to a rare prange interleaving can survive the sweep. Known finding "
+        "C18/regularisation-flag-depends-on-parallel-switch is excluded and counted.",
+        "DESIGN.md §5 C18, §8",
+    ),
     "C04": (
         "Hypothesis-generated pairs and legal pipelines with per-step snapshots (invariant over the step history) vs. a three-zone reference of the flag causes",
         "Exploration: generated pairs with masks and no-data next to borders and partial-range zones, scalar intervals "
